@@ -1963,6 +1963,8 @@ Inductive TyL : nat -> list Z -> Prop :=
 | TL_subst : forall seq n ta, forallb seqchar seq = true -> TA n ta -> TyL (S n) (83 :: seq ++ 95 :: ta)
 | TL_src : forall id n ta, ident_okb id = true -> TA n ta -> TyL (n + 3) (src id ++ ta)
 | TL_nested : forall n items, NI n items -> TyL (n + 4) (78 :: items ++ [69])
+| TL_abbr : forall c nm n ta, find_abbrev std_abbrevs c = Some nm -> c <> 116 -> TA n ta -> TyL (S n) (83 :: c :: ta)
+| TL_std : forall id n ta, ident_okb id = true -> TA n ta -> TyL (n + 3) (83 :: 116 :: src id ++ ta)
 with TA : nat -> list Z -> Prop :=
 | TA_none : TA 0 []
 | TA_some : forall n l, TAL n l -> TA (n + 2) (73 :: l ++ [69])
@@ -1975,7 +1977,9 @@ with NI : nat -> list Z -> Prop :=
 | NI_nil : NI 1 []
 | NI_src : forall id n ta m l, ident_okb id = true -> TA n ta -> NI m l -> NI (n + m + 2) (src id ++ ta ++ l)
 | NI_sub : forall seq n ta m l, forallb seqchar seq = true -> TA n ta -> NI m l ->
-           NI (n + m + 2) (83 :: seq ++ 95 :: ta ++ l).
+           NI (n + m + 2) (83 :: seq ++ 95 :: ta ++ l)
+| NI_abbr : forall c nm n ta m l, find_abbrev std_abbrevs c = Some nm -> TA n ta -> NI m l ->
+            NI (n + m + 2) (83 :: c :: ta ++ l).
 
 Scheme TyL_mut := Minimality for TyL Sort Prop
   with TA_mut := Minimality for TA Sort Prop
@@ -1985,13 +1989,16 @@ Combined Scheme grammar_ind from TyL_mut, TA_mut, TAL_mut, NI_mut.
 
 Lemma TyL_hd : forall n u, TyL n u -> forall rest, tyhd (hd0 (u ++ rest)) = true.
 Proof.
-  intros n u H. induction H as [c Hc | q n u Hq H IH | seq n ta Hs Hta | id n ta Hid Hta | n items Hi]; intros rest;
+  intros n u H. induction H as [c Hc | q n u Hq H IH | seq n ta Hs Hta | id n ta Hid Hta | n items Hi
+                               | c nm n ta Hc Hct Hta | id n ta Hid Hta ]; intros rest;
     unfold tyhd; cbn [app hd0].
   - rewrite Hc. rewrite orb_true_r. reflexivity.
   - rewrite Hq. reflexivity.
   - rewrite !orb_true_r. reflexivity.
   - rewrite <- app_assoc. pose proof (src_hd_digit id (ta ++ rest) Hid) as Hd. unfold isdigit.
     rwt (48 <=? hd0 (src id ++ ta ++ rest)). rwt (hd0 (src id ++ ta ++ rest) <=? 57). cbn [andb]. rewrite !orb_true_r. reflexivity.
+  - rewrite !orb_true_r. reflexivity.
+  - rewrite !orb_true_r. reflexivity.
   - rewrite !orb_true_r. reflexivity.
 Qed.
 Lemma TA_hd : forall n ta, TA n ta -> ta = [] \/ exists r, ta = 73 :: r.
@@ -2007,9 +2014,10 @@ Qed.
 Lemma NI_hd : forall m l, NI m l -> forall rest,
   let h := hd0 (l ++ 69 :: rest) in (48 <= h <= 57) \/ h = 83 \/ h = 69.
 Proof.
-  intros m l H rest. destruct H as [| id n ta m l Hid Hta Hl | seq n ta m l Hs Hta Hl ]; cbn zeta.
+  intros m l H rest. destruct H as [| id n ta m l Hid Hta Hl | seq n ta m l Hs Hta Hl | c nm n ta m l Hc Hta Hl ]; cbn zeta.
   - right; right; reflexivity.
   - left. rewrite <- !app_assoc. apply src_hd_digit. exact Hid.
+  - right; left. reflexivity.
   - right; left. reflexivity.
 Qed.
 
@@ -2031,6 +2039,59 @@ Definition P_TAL (n : nat) (l : list Z) : Prop :=
 Definition P_NI (n : nat) (l : list Z) : Prop :=
   forall k p o lv t tp fnm rest, 0 < t -> At p (l ++ 69 :: rest) -> (n <= k)%nat ->
   run true s 0 k (LNested 0) (G p o lv t tp fnm) = R 0 (G (p + Z.of_nat (List.length l)) o lv t tp fnm).
+
+(* S t | S a | S b | S s | S i | S o | S d : the std abbreviations *)
+Lemma abbrev_chars : forall c nm, find_abbrev std_abbrevs c = Some nm -> 97 <= c <= 122.
+Proof.
+  intros c nm H. unfold std_abbrevs, find_abbrev in H.
+  repeat match type of H with (if ?b then _ else _) = _ => destruct b eqn:?; [ | ] end;
+    try discriminate; match goal with X : (c =? _) = true |- _ => apply Z.eqb_eq in X; revert X; chs; lia end.
+Qed.
+Lemma subst_abbr_skip : forall p o lv t tp fnm c nm rest, t <> 0 ->
+  At p (83 :: c :: rest) -> find_abbrev std_abbrevs c = Some nm -> hd0 rest <> 66 ->
+  dd_substitution true s 0 (G p o lv t tp fnm) = R 0 (G (p + 2) o lv t tp fnm).
+Proof.
+  intros p o lv t tp fnm c nm rest Ht H Hc HB. unfold dd_substitution. unfold G at 1.
+  pose proof (At_lt _ _ _ H) as Hlt.
+  rewrite bind_eof. stsimpl. rwf (p >=? L). cbn [Z.eqb].
+  unfold expect at 1. unfold consume.
+  erewrite bind_R; [| apply (consume_n_at _ 1 (83 :: c :: rest)); [ exact H | reflexivity | cbn [List.length]; lia ] ].
+  cbn [hd0]. chs. cbn [Z.eqb Pos.eqb]. stsimpl.
+  pose proof (At_cons _ _ _ H) as H1. pose proof (At_cons _ _ _ H1) as H2. replace (p + 1 + 1) with (p + 2) in H2 by lia.
+  erewrite bind_R; [| apply (curr_at _ (c :: rest)); [ exact H1 | reflexivity ] ].
+  cbn [hd0]. rewrite Hc.
+  erewrite bind_R; [| apply (consume_n_at _ 1 (c :: rest)); [ exact H1 | reflexivity | cbn [List.length]; lia ] ].
+  stsimpl. rewrite bind_gets, bind_getb. stsimpl. rwf (t =? 0). cbn [Z.eqb orb]. rewrite bind_ret_k.
+  replace (p + 1 + 1) with (p + 2) by lia.
+  erewrite bind_R; [| apply (curr_at _ rest); [ exact H2 | reflexivity ] ].
+  chs. rwf (hd0 rest =? 66). rewrite bind_ret_k. reflexivity.
+Qed.
+Lemma subst_abbr_at : forall p o lv fnm c nm rest,
+  At p (83 :: c :: rest) -> find_abbrev std_abbrevs c = Some nm -> hd0 rest <> 66 ->
+  dd_substitution true s 0 (NS p o lv fnm) = R 0 (NS (p + 2) (add_out (sep_out o fnm) nm) lv false).
+Proof.
+  intros p o lv fnm c nm rest H Hc HB. unfold dd_substitution. unfold NS at 1.
+  pose proof (At_lt _ _ _ H) as Hlt.
+  rewrite bind_eof. stsimpl. rwf (p >=? L). cbn [Z.eqb].
+  unfold expect at 1. unfold consume.
+  erewrite bind_R; [| apply (consume_n_at _ 1 (83 :: c :: rest)); [ exact H | reflexivity | cbn [List.length]; lia ] ].
+  cbn [hd0]. chs. cbn [Z.eqb Pos.eqb]. stsimpl.
+  pose proof (At_cons _ _ _ H) as H1. pose proof (At_cons _ _ _ H1) as H2. replace (p + 1 + 1) with (p + 2) in H2 by lia.
+  erewrite bind_R; [| apply (curr_at _ (c :: rest)); [ exact H1 | reflexivity ] ].
+  cbn [hd0]. rewrite Hc.
+  erewrite bind_R; [| apply (consume_n_at _ 1 (c :: rest)); [ exact H1 | reflexivity | cbn [List.length]; lia ] ].
+  stsimpl. rewrite bind_gets, bind_getb. stsimpl. cbn [Z.eqb orb].
+  replace (p + 1 + 1) with (p + 2) by lia.
+  unfold bind at 1. unfold bind at 1. unfold append_separator, append. stsimpl.
+  assert (E : forall st', curr s 0 st' = R (hd0 rest) st' -> 
+              (c2 <- curr s 0;; (if c2 =? 66 then dd_abi_tag true s 0 else ret 0);;; ret 0) st' = R 0 st').
+  { intros st' Hcu. erewrite bind_R; [| exact Hcu ]. rwf (hd0 rest =? 66). rewrite bind_ret_k. reflexivity. }
+  destruct fnm; stsimpl.
+  - rewrite E; [ unfold NS, sep_out, add_out; destruct o; reflexivity |].
+    apply (curr_at _ rest); [ exact H2 | reflexivity ].
+  - rewrite E; [ unfold NS, sep_out, add_out; destruct o; reflexivity |].
+    apply (curr_at _ rest); [ exact H2 | reflexivity ].
+Qed.
 
 (* after an optional <targs>: `if (dd_curr(dd) == 'I') ret = dd_template_args(dd)` *)
 Lemma targs_cont : forall n ta k p o lv t tp fnm rest v, TA n ta -> P_TA n ta -> 0 <= t ->
@@ -2230,6 +2291,54 @@ Proof.
     cbn [hd0]. chs. cbn [Z.eqb Pos.eqb]. stsimpl.
     unfold dec_level. rewrite bind_modify. unfold ret, G. stsimpl.
     replace (lv + 1 - 1) with lv by lia. f_equal. f_equal. cbn [List.length]. rewrite app_length. cbn [List.length]. lia.
+  - (* S a | S b | S s | S i | S o | S d  [<targs>] *)
+    intros c nm n ta Hc Hct Hta IH k p o lv t tp fnm rest Ht H [HfI HfB] Hk.
+    destruct k as [| k]; [ lia |].
+    change (run true s 0 (S k) (LType (-1))) with (type_loop true s 0 (run true s 0 k) (-1)).
+    unfold type_loop. unfold G at 1. cbn [app] in H.
+    pose proof (At_lt _ _ _ H). pose proof (abbrev_chars c nm Hc) as Hcr.
+    rewrite bind_eof. stsimpl. rwf (p >=? L). cbn [Z.eqb].
+    erewrite bind_R; [| apply (curr_at _ (83 :: c :: ta ++ rest)); [ exact H | reflexivity ] ].
+    cbn [hd0]. sc_eval. chs. cbn [Z.eqb Pos.eqb].
+    erewrite bind_R; [| apply (peek1_at _ 83 (c :: ta ++ rest)); [ exact H | reflexivity ] ].
+    fold (G p o lv t tp fnm).
+    assert (HB : hd0 (ta ++ rest) <> 66).
+    { destruct (TA_hd n ta Hta) as [E1 | [r E1]]; subst ta; cbn [app hd0]; [ exact HfB | lia ]. }
+    erewrite bind_R; [| apply (subst_abbr_skip p o lv t tp fnm c nm (ta ++ rest)); try assumption; lia ].
+    assert (H2 : At (p + 2) (ta ++ rest)).
+    { pose proof (At_cons _ _ _ (At_cons _ _ _ H)) as HH. replace (p + 1 + 1) with (p + 2) in HH by lia. exact HH. }
+    unfold G at 1.
+    erewrite bind_R; [| apply (curr_at _ (ta ++ rest)); [ exact H2 | reflexivity ] ].
+    cbn [hd0 Z.eqb]. rwf (c =? 116). rewrite andb_false_r. cbn [andb]. rewrite bind_ret.
+    fold (G (p + 2) o lv t tp fnm).
+    rewrite (targs_cont n ta k _ o lv t tp fnm rest 0 Hta IH ltac:(lia) H2 HfI ltac:(lia) eq_refl).
+    f_equal. unfold G. f_equal. cbn [List.length]. lia.
+  - (* S t <source-name> [<targs>] *)
+    intros id n ta Hid Hta IH k p o lv t tp fnm rest Ht H [HfI HfB] Hk.
+    destruct k as [| k]; [ lia |].
+    change (run true s 0 (S k) (LType (-1))) with (type_loop true s 0 (run true s 0 k) (-1)).
+    unfold type_loop. unfold G at 1. cbn [app] in H. rewrite <- app_assoc in H.
+    pose proof (At_lt _ _ _ H).
+    rewrite bind_eof. stsimpl. rwf (p >=? L). cbn [Z.eqb].
+    erewrite bind_R; [| apply (curr_at _ (83 :: 116 :: src id ++ ta ++ rest)); [ exact H | reflexivity ] ].
+    cbn [hd0]. sc_eval. chs. cbn [Z.eqb Pos.eqb].
+    erewrite bind_R; [| apply (peek1_at _ 83 (116 :: src id ++ ta ++ rest)); [ exact H | reflexivity ] ].
+    fold (G p o lv t tp fnm).
+    pose proof (src_hd_digit id (ta ++ rest) Hid) as Hd.
+    erewrite bind_R; [| apply (subst_abbr_skip p o lv t tp fnm 116 (str "std") (src id ++ ta ++ rest)); try reflexivity; try assumption; lia ].
+    assert (H2 : At (p + 2) (src id ++ ta ++ rest)).
+    { pose proof (At_cons _ _ _ (At_cons _ _ _ H)) as HH. replace (p + 1 + 1) with (p + 2) in HH by lia. exact HH. }
+    unfold G at 1.
+    erewrite bind_R; [| apply (curr_at _ (src id ++ ta ++ rest)); [ exact H2 | reflexivity ] ].
+    cbn [hd0 Z.eqb Pos.eqb andb]. unfold isdigit.
+    rwt (48 <=? hd0 (src id ++ ta ++ rest)). rwt (hd0 (src id ++ ta ++ rest) <=? 57). cbn [andb].
+    destruct k as [| k1]; [ lia |].
+    fold (G (p + 2) o lv t tp fnm).
+    assert (HB : hd0 (ta ++ rest) <> 66).
+    { destruct (TA_hd n ta Hta) as [E1 | [r E1]]; subst ta; cbn [app hd0]; [ exact HfB | lia ]. }
+    erewrite bind_R; [| apply (unq_skip k1 (p + 2) o lv t tp fnm id (ta ++ rest)); try assumption; lia ].
+    rewrite (targs_cont n ta (S k1) _ o lv t tp fnm rest 0 Hta IH ltac:(lia) (At_src_tail _ _ _ H2) HfI ltac:(lia) eq_refl).
+    f_equal. unfold G. f_equal. cbn [List.length]. rewrite app_length. lia.
   - (* no <targs> *)
     intros k p o lv t tp fnm rest Ht Hne. contradiction.
   - (* I <targ>* E *)
@@ -2399,6 +2508,27 @@ Proof.
       apply At_app. cbn [app]. rewrite <- app_assoc. exact H. }
     rewrite (ni_cont n ta m l (S k1) _ o lv t tp fnm rest Hta IHa IHl Ht H2 (NI_hd m l Hl rest) ltac:(lia)).
     f_equal. unfold G. f_equal. cbn [List.length]. repeat rewrite app_length. cbn [List.length]. repeat rewrite app_length. lia.
+  - (* S t | S a ... [<targs>] in a nested name *)
+    intros c nm n ta m l Hc Hta IHa Hl IHl k p o lv t tp fnm rest Ht H Hk.
+    destruct k as [| k]; [ lia |]. destruct k as [| k1]; [ lia |].
+    change (run true s 0 (S (S k1)) (LNested 0)) with (nested_loop true s 0 (run true s 0 (S k1)) 0).
+    unfold nested_loop. cbn [app] in H. rewrite <- app_assoc in H.
+    set (tail := ta ++ l ++ 69 :: rest) in *.
+    unfold G at 1.
+    erewrite bind_R; [| apply (curr_at _ (83 :: c :: tail)); [ exact H | reflexivity ] ].
+    rewrite bind_eof. stsimpl. pose proof (At_lt _ _ _ H) as Hlt. rwf (p >=? L). cbn [hd0]. chs.
+    cbn [Z.eqb Pos.eqb orb negb].
+    erewrite bind_R; [| apply (peek1_at _ 83 (c :: tail)); [ exact H | reflexivity ] ].
+    cbn [andb orb]. unfold islower, isdigit. cbn [Z.leb Z.compare Pos.compare Pos.compare_cont andb orb].
+    fold (G p o lv t tp fnm).
+    pose proof (NI_hd m l Hl rest) as Hh.
+    assert (HB : hd0 tail <> 66).
+    { unfold tail. destruct (TA_hd n ta Hta) as [E1 | [r E1]]; subst ta; cbn [app hd0]; [| lia ]. cbn zeta in Hh. lia. }
+    erewrite bind_R; [| apply (subst_abbr_skip p o lv t tp fnm c nm tail); try assumption; lia ].
+    assert (H2 : At (p + 2) tail).
+    { pose proof (At_cons _ _ _ (At_cons _ _ _ H)) as HH. replace (p + 1 + 1) with (p + 2) in HH by lia. exact HH. }
+    rewrite (ni_cont n ta m l (S k1) _ o lv t tp fnm rest Hta IHa IHl Ht H2 Hh ltac:(lia)).
+    f_equal. unfold G. f_equal. cbn [List.length]. repeat rewrite app_length. lia.
 Qed.
 
 (* ---- size and alphabet of grammar strings *)
@@ -2435,6 +2565,8 @@ Proof.
   - constructor; [ lia |]. apply Forall_app. split; [ apply no_dollar_seq; assumption |]. constructor; [ lia | assumption ].
   - apply Forall_app. split; [ apply no_dollar_src; assumption | assumption ].
   - constructor; [ lia |]. apply Forall_app. split; [ assumption | repeat constructor; lia ].
+  - constructor; [ lia |]. constructor; [ pose proof (abbrev_chars c nm H); lia | assumption ].
+  - constructor; [ lia |]. constructor; [ lia |]. apply Forall_app. split; [ apply no_dollar_src; assumption | assumption ].
   - constructor.
   - constructor; [ lia |]. apply Forall_app. split; [ assumption | repeat constructor; lia ].
   - constructor.
@@ -2448,6 +2580,7 @@ Proof.
   - apply Forall_app. split; [ apply no_dollar_src; assumption |]. apply Forall_app. split; assumption.
   - constructor; [ lia |]. apply Forall_app. split; [ apply no_dollar_seq; assumption |].
     constructor; [ lia |]. apply Forall_app. split; assumption.
+  - constructor; [ lia |]. constructor; [ pose proof (abbrev_chars c nm H); lia |]. apply Forall_app. split; assumption.
 Qed.
 
 (* ---- parameter list: <type>* up to the end of the string *)
@@ -2492,24 +2625,29 @@ Qed.
 Inductive Comps : nat -> list (list Z) -> list Z -> Prop :=
 | CP_nil : Comps 0 [] []
 | CP_cons : forall id n ta m ids l, ident_okb id = true -> TA n ta -> Comps m ids l ->
-            Comps (n + m + 3) (id :: ids) (src id ++ ta ++ l).
+            Comps (n + m + 3) (id :: ids) (src id ++ ta ++ l)
+| CP_abbr : forall c nm n ta m ids l, find_abbrev std_abbrevs c = Some nm -> TA n ta -> Comps m ids l ->
+            Comps (n + m + 3) (nm :: ids) (83 :: c :: ta ++ l).
 
 Lemma Comps_hd : forall m ids l, Comps m ids l -> forall rest, hd0 rest <> 66 -> hd0 (l ++ rest) <> 66.
 Proof.
-  intros m ids l H rest Hr. destruct H as [| id n ta m ids l Hid Hta Hl ]; [ exact Hr |].
+  intros m ids l H rest Hr. destruct H as [| id n ta m ids l Hid Hta Hl | c nm n ta m ids l Hc Hta Hl ]; [ exact Hr | | cbn; lia ].
   rewrite <- !app_assoc. pose proof (src_hd_digit id (ta ++ l ++ rest) Hid). lia.
 Qed.
 Lemma Comps_no_dollar : forall m ids l, Comps m ids l -> no_dollar l.
 Proof.
-  intros m ids l H. induction H; [ constructor |].
-  apply Forall_app. split; [ apply no_dollar_src; assumption |]. apply Forall_app. split; [| assumption ].
-  apply (proj1 (proj2 grammar_no_dollar) n ta). assumption.
+  intros m ids l H. induction H; [ constructor | |].
+  - apply Forall_app. split; [ apply no_dollar_src; assumption |]. apply Forall_app. split; [| assumption ].
+    apply (proj1 (proj2 grammar_no_dollar) n ta). assumption.
+  - constructor; [ lia |]. constructor; [ pose proof (abbrev_chars c nm H); lia |].
+    apply Forall_app. split; [| assumption ]. apply (proj1 (proj2 grammar_no_dollar) n ta). assumption.
 Qed.
 Lemma Comps_cost : forall m ids l, Comps m ids l -> (m <= 6 * List.length l)%nat.
 Proof.
-  intros m ids l H. induction H; [ cbn; lia |].
-  repeat rewrite app_length. pose proof (proj1 (proj2 grammar_cost) n ta H0). pose proof (ident_len id H).
-  assert (1 <= List.length (src id))%nat by (unfold src; rewrite app_length; lia). lia.
+  intros m ids l H. induction H; [ cbn; lia | |].
+  - repeat rewrite app_length. pose proof (proj1 (proj2 grammar_cost) n ta H0). pose proof (ident_len id H).
+    assert (1 <= List.length (src id))%nat by (unfold src; rewrite app_length; lia). lia.
+  - cbn [List.length]. rewrite app_length. pose proof (proj1 (proj2 grammar_cost) n ta H0). lia.
 Qed.
 
 Lemma nested_gcomps : forall m ids enc, Comps m ids enc -> forall l k p o lv fnm rest x,
@@ -2519,7 +2657,8 @@ Lemma nested_gcomps : forall m ids enc, Comps m ids enc -> forall l k p o lv fnm
   run true s 0 k (LNested 0) (NS p o lv fnm) =
   R 0 (NS (p + Z.of_nat (List.length enc) + Z.of_nat (List.length (last_enc l))) (Some (last_out x l)) lv false).
 Proof.
-  intros m ids enc H. induction H as [| id n ta m ids enc Hid Hta Hc IH ]; intros l k p o lv fnm rest x H Hl Hnd HL Hout Hfnm Hk.
+  intros m ids enc H. induction H as [| id n ta m ids enc Hid Hta Hc IH | c nm n ta m ids enc Hcn Hta Hc IH ];
+    intros l k p o lv fnm rest x H Hl Hnd HL Hout Hfnm Hk.
   - cbn [app List.length out_after fnm_after] in *. subst o fnm. replace (p + Z.of_nat 0) with p by lia.
     destruct k as [| [| [| k]]]; try lia.
     apply (nested_end l k p x lv rest H Hl).
@@ -2578,6 +2717,53 @@ Proof.
       change (G (p1 + Z.of_nat (List.length (73 :: r))) o1 lv 0 0 false) with (NS (p1 + Z.of_nat (List.length (73 :: r))) o1 lv false).
       rewrite (Hrest k2 _ (At_app _ _ _ H) ltac:(lia)).
       f_equal. unfold NS. f_equal. repeat rewrite app_length. unfold p1. cbn [List.length]. lia.
+  - (* a std abbreviation as component *)
+    cbn [app] in H, Hnd. rewrite <- !app_assoc in H, Hnd.
+    set (tail := enc ++ last_enc l ++ 69 :: rest) in *.
+    assert (HlastB : hd0 (last_enc l ++ 69 :: rest) <> 66).
+    { destruct l as [| kd | kd | c0 c1]; cbn [last_enc app hd0]; try lia.
+      cbn [last_okb] in Hl. apply andb_prop in Hl. destruct Hl as [Hl _]. apply andb_prop in Hl. destruct Hl as [Hl _].
+      unfold op_okb in Hl. apply andb_prop in Hl. destruct Hl as [Hl _]. apply andb_prop in Hl. destruct Hl as [Hl _].
+      unfold islower in Hl. lia. }
+    assert (HtailB : hd0 tail <> 66) by (apply (Comps_hd m ids enc Hc); exact HlastB).
+    destruct k as [| k1]; [ lia |]. destruct k1 as [| k2]; [ lia |].
+    change (run true s 0 (S (S k2)) (LNested 0)) with (nested_loop true s 0 (run true s 0 (S k2)) 0).
+    unfold nested_loop. unfold NS at 1.
+    erewrite bind_R; [| apply (curr_at _ (83 :: c :: ta ++ tail)); [ exact H | reflexivity ] ].
+    rewrite bind_eof. stsimpl. pose proof (At_lt _ _ _ H) as Hlt. rwf (p >=? L). cbn [hd0]. chs.
+    cbn [Z.eqb Pos.eqb orb negb].
+    erewrite bind_R; [| apply (peek1_at _ 83 (c :: ta ++ tail)); [ exact H | reflexivity ] ].
+    cbn [andb orb]. unfold islower, isdigit. cbn [Z.leb Z.compare Pos.compare Pos.compare_cont andb orb].
+    assert (HB2 : hd0 (ta ++ tail) <> 66).
+    { destruct (TA_hd n ta Hta) as [E1 | [r E1]]; subst ta; cbn [app hd0]; [ exact HtailB | lia ]. }
+    fold (NS p o lv fnm).
+    erewrite bind_R; [| apply (subst_abbr_at p o lv fnm c nm (ta ++ tail)); assumption ].
+    pose proof (At_cons _ _ _ (At_cons _ _ _ H)) as H2. replace (p + 1 + 1) with (p + 2) in H2 by lia.
+    cbn [out_after fnm_after] in Hout, Hfnm.
+    set (p1 := p + 2) in *.
+    set (o1 := add_out (sep_out o fnm) nm) in *.
+    assert (Hrest : forall kk pp, At pp tail -> (m + 3 <= kk)%nat ->
+              run true s 0 kk (LNested 0) (NS pp o1 lv false) =
+              R 0 (NS (pp + Z.of_nat (List.length enc) + Z.of_nat (List.length (last_enc l))) (Some (last_out x l)) lv false)).
+    { intros kk pp Hpp Hkk. apply (IH l kk pp o1 lv false rest x); try assumption.
+      - eapply no_dollar_app_r. inversion Hnd as [| ? ? _ Hnd1 ]; subst. inversion Hnd1 as [| ? ? _ Hnd2 ]; subst. exact Hnd2.
+      - destruct ids; reflexivity. }
+    destruct (TA_hd n ta Hta) as [E1 | [r E1]]; subst ta.
+    + cbn [app List.length] in *. rewrite (Hrest (S k2) p1 H2 ltac:(lia)).
+      f_equal. unfold NS. f_equal. unfold p1. lia.
+    + change (run true s 0 (S k2) (LNested 0)) with (nested_loop true s 0 (run true s 0 k2) 0).
+      unfold nested_loop. unfold NS at 1. cbn [app] in H2.
+      erewrite bind_R; [| apply (curr_at _ (73 :: r ++ tail)); [ exact H2 | reflexivity ] ].
+      rewrite bind_eof. stsimpl. pose proof (At_lt _ _ _ H2) as Hlt1. rwf (p1 >=? L). cbn [hd0]. chs.
+      cbn [Z.eqb Pos.eqb orb negb].
+      erewrite bind_R; [| apply (peek1_at _ 73 (r ++ tail)); [ exact H2 | reflexivity ] ].
+      cbn [andb orb]. unfold islower, isdigit. cbn [Z.leb Z.compare Pos.compare Pos.compare_cont andb orb].
+      change (mkst p1 L o1 0 lv 0 false false false false) with (G p1 o1 lv 0 0 false).
+      change (73 :: r ++ tail) with ((73 :: r) ++ tail) in H2.
+      erewrite bind_R; [| apply (proj1 (proj2 grammar_walk) n (73 :: r) Hta k2 p1 o1 lv 0 0 false tail); [ lia | discriminate | exact H2 | lia ] ].
+      change (G (p1 + Z.of_nat (List.length (73 :: r))) o1 lv 0 0 false) with (NS (p1 + Z.of_nat (List.length (73 :: r))) o1 lv false).
+      rewrite (Hrest k2 _ (At_app _ _ _ H2) ltac:(lia)).
+      f_equal. unfold NS. f_equal. repeat rewrite app_length. unfold p1. cbn [List.length]. rewrite app_length. cbn [List.length]. lia.
 Qed.
 
 Lemma encoding_generic_g : forall c0 tl x pe m ptxt F3,
@@ -2664,6 +2850,50 @@ Proof.
   erewrite bind_R; [| apply (consume_n_at _ 1 (69 :: ptxt)); [ exact H4 | reflexivity | cbn [List.length]; lia ] ].
   cbn [hd0]. chs. cbn [Z.eqb Pos.eqb]. stsimpl.
   unfold dec_level. rewrite bind_modify. stsimpl. unfold ret, NS. cbn [Z.sub Z.add Z.opp Z.pos_sub Pos.pred_double].
+  reflexivity.
+Qed.
+
+(* _Z St <source-name> [<targs>] <type>* : functions of namespace std (std::sort<...>, std::move<...>, ...) *)
+Lemma std_unscoped_encoding_at : forall id n ta m ptxt F,
+  s = str "_ZSt" ++ src id ++ ta ++ ptxt ->
+  ident_okb id = true -> TA n ta -> PTys m ptxt -> no_dollar (id ++ ta ++ ptxt) -> L <= INT_MAX ->
+  (n + m + 10 <= F)%nat ->
+  run true s 0 F FEncoding (st0 L) = R 0 (NS L (Some (str "std::" ++ id)) 0 false).
+Proof.
+  intros id n ta m ptxt F Hs Hid Hta Hpar Hnd HL HF.
+  set (body := src id ++ ta ++ ptxt) in *.
+  assert (H0 : At 0 (95 :: 90 :: 83 :: 116 :: body)).
+  { unfold At. split; [ lia |]. split; [ unfold suffix; cbn [Z.add Z.to_nat skipn]; rewrite Hs; reflexivity |].
+    unfold flen. rewrite Hs. cbn [str app List.length]. lia. }
+  pose proof (At_cons _ _ _ H0) as H1. pose proof (At_cons _ _ _ H1) as H2. cbn [Z.add Pos.add] in H1, H2.
+  pose proof (At_cons _ _ _ (At_cons _ _ _ H2)) as H4. cbn [Z.add Pos.add] in H4.
+  destruct F as [| F1]; [ lia |]. destruct F1 as [| F2]; [ lia |]. destruct F2 as [| F3]; [ lia |].
+  set (pe := 4 + Z.of_nat (List.length (src id)) + Z.of_nat (List.length ta)).
+  assert (Hpe : At pe ptxt).
+  { unfold pe. apply (At_app _ ta). apply (At_app _ (src id)). exact H4. }
+  apply (encoding_generic_g 83 (116 :: body) (str "std::" ++ id) pe m ptxt F3 H0); try lia; try assumption.
+  change (run true s 0 (S (S F3)) FName) with (dd_name true s 0 (run true s 0 (S F3))).
+  unfold dd_name. unfold NS at 1.
+  erewrite bind_R; [| apply (curr_at _ (83 :: 116 :: body)); [ exact H2 | reflexivity ] ].
+  pose proof (At_lt _ _ _ H2).
+  rewrite bind_eof. stsimpl. rwf (2 >=? L). cbn [hd0]. chs. cbn [Z.eqb Pos.eqb].
+  pose proof (src_hd_digit id (ta ++ ptxt) Hid) as Hd. fold body in Hd.
+  fold (NS 2 None 1 true).
+  erewrite bind_R; [| apply (subst_abbr_at 2 None 1 true 116 (str "std") body); [ exact H2 | reflexivity | lia ] ].
+  cbn [Z.ltb Z.compare Z.add Pos.add]. unfold NS at 1.
+  erewrite bind_R; [| apply (curr_at _ body); [ exact H4 | reflexivity ] ].
+  rwf (hd0 body =? 73).
+  destruct F3 as [| F4]; [ lia |].
+  assert (HB : hd0 (ta ++ ptxt) <> 66).
+  { destruct (TA_hd n ta Hta) as [E1 | [r E1]]; subst ta; cbn [app hd0]; [| lia ]. destruct (PTys_follow m ptxt Hpar). assumption. }
+  change (mkst 4 L (add_out (sep_out None true) (str "std")) 0 1 0 false false false false)
+    with (NS 4 (Some (str "std")) 1 false).
+  erewrite bind_R; [| apply (unq_src (S F4) 4 (Some (str "std")) 1 false id (ta ++ ptxt)); assumption ].
+  cbn [Z.ltb Z.compare].
+  change (NS (4 + Z.of_nat (List.length (src id))) (add_out (sep_out (Some (str "std")) false) id) 1 false)
+    with (G (4 + Z.of_nat (List.length (src id))) (Some (str "std::" ++ id)) 1 0 0 false).
+  rewrite (targs_cont n ta (S (S F4)) _ _ 1 0 0 false ptxt 0 Hta (proj1 (proj2 grammar_walk) n ta Hta) ltac:(lia)
+             (At_src_tail _ _ _ H4) (proj1 (PTys_follow m ptxt Hpar)) ltac:(lia) eq_refl).
   reflexivity.
 Qed.
 End Walk.
@@ -3166,12 +3396,36 @@ Definition gname (ids : list (list Z)) (l : lastk) : list Z :=
   | LOp c0 c1 => str "::operator" ++ op_name c0 c1
   end.
 
+Lemma last_segment_join_gen : forall a cs, no_colon (last (a :: cs) []) ->
+  last_segment (join_sep (a :: cs)) = last (a :: cs) [].
+Proof.
+  intros a cs. revert a. induction cs as [| z cs' IH] using rev_ind; intros a H.
+  - cbn [join_sep map List.concat last] in *. rewrite app_nil_r. unfold last_segment. change (ch ":") with 58.
+    rewrite rindex_none by assumption. reflexivity.
+  - change (a :: cs' ++ [z]) with ((a :: cs') ++ [z]) in *.
+    rewrite last_last in *.
+    change ((a :: cs') ++ [z]) with (a :: cs' ++ [z]).
+    cbn [join_sep]. rewrite map_app, concat_app. cbn [map List.concat]. rewrite app_nil_r.
+    set (P := a ++ List.concat (map (fun id => str "::" ++ id) cs')).
+    replace (a ++ List.concat (map (fun id => str "::" ++ id) cs') ++ str "::" ++ z)
+      with (P ++ [58; 58] ++ z) by (unfold P; rewrite <- app_assoc; reflexivity).
+    unfold last_segment. change (ch ":") with 58.
+    rewrite rindex_app, rindex_app. rewrite (rindex_none 58 z) by assumption.
+    cbn [rindex_of Z.eqb Pos.eqb List.length].
+    replace (Z.to_nat (0 + Z.of_nat (List.length P) + 1 + 1)) with (List.length P + 2)%nat by lia.
+    rewrite skipn_app. rewrite skipn_all2 by lia.
+    replace (List.length P + 2 - List.length P)%nat with 2%nat by lia. reflexivity.
+Qed.
+Definition needs_class (l : lastk) : bool := match l with LCtor _ | LDtor _ => true | _ => false end.
+
+(* [ids] are the components as printed: identifiers, or "std", "std::allocator", ... for S t, S a, ... *)
 Theorem roundtrip_general : forall quals n id ids enc l m ptxt,
   forallb qual_okb quals = true -> Comps n (id :: ids) enc -> last_okb l = true -> PTys m ptxt ->
+  (needs_class l = true -> ident_okb (last (id :: ids) []) = true) ->
   Z.of_nat (List.length (gmangle quals enc l ptxt)) <= INT_MAX ->
   demangle (gmangle quals enc l ptxt) = Str (gname (id :: ids) l).
 Proof.
-  intros quals n id ids enc l m ptxt Hq Hc Hl Hpar HL.
+  intros quals n id ids enc l m ptxt Hq Hc Hl Hpar Hcls HL.
   set (s := gmangle quals enc l ptxt) in *.
   assert (Hs : s = str "_ZN" ++ quals ++ enc ++ last_enc l ++ 69 :: ptxt) by reflexivity.
   assert (Hpnd : no_dollar ptxt).
@@ -3186,15 +3440,84 @@ Proof.
   assert (Hfuel : (List.length quals + n + m + 10 <= fuel_of s)%nat).
   { unfold fuel_of. rewrite Hs. cbn [str]. repeat rewrite app_length. cbn [List.length].
     pose proof (Comps_cost n (id :: ids) enc Hc). lia. }
-  assert (Hids : Forall (fun i => ident_okb i = true) (id :: ids)).
-  { clear - Hc. remember (id :: ids) as L0. clear HeqL0. induction Hc; constructor; assumption. }
   assert (Hpre : prefix_of prefix_str s = false) by (rewrite Hs; reflexivity).
   replace (gname (id :: ids) l) with (last_out (join_sep (id :: ids)) l).
   - apply demangle_of_encoding.
     + exact Hpre.
     + unfold mangled_form, stripped. rewrite Hpre. rewrite Hs. reflexivity.
     + apply (gencoding_at s quals n id ids enc l m ptxt (fuel_of s) Hs Hq Hc Hl Hpar Hnd HL Hfuel).
-  - rewrite (last_out_eq _ _ _ Hids Hl). reflexivity.
+  - unfold gname. destruct l as [| kd | kd | c0 c1]; cbn [last_out needs_class] in *.
+    + rewrite app_nil_r. reflexivity.
+    + rewrite (last_segment_join_gen _ _ (ident_no_colon _ (Hcls eq_refl))). reflexivity.
+    + rewrite (last_segment_join_gen _ _ (ident_no_colon _ (Hcls eq_refl))). reflexivity.
+    + unfold op_name. destruct (find_op ops c0 c1) as [nm |] eqn:E.
+      * rewrite <- !app_assoc. reflexivity.
+      * exfalso. cbn [last_okb] in Hl. rewrite E in Hl. rewrite andb_false_r in Hl. discriminate.
+Qed.
+
+Definition std_unscoped_mangle (id ta ptxt : list Z) : list Z := str "_ZSt" ++ src id ++ ta ++ ptxt.
+Theorem roundtrip_std_unscoped : forall id n ta m ptxt,
+  ident_okb id = true -> TA n ta -> PTys m ptxt ->
+  Z.of_nat (List.length (std_unscoped_mangle id ta ptxt)) <= INT_MAX ->
+  demangle (std_unscoped_mangle id ta ptxt) = Str (str "std::" ++ id).
+Proof.
+  intros id n ta m ptxt Hid Hta Hpar HL.
+  set (s := std_unscoped_mangle id ta ptxt) in *.
+  assert (Hs : s = str "_ZSt" ++ src id ++ ta ++ ptxt) by reflexivity.
+  assert (Hpnd : no_dollar ptxt).
+  { clear - Hpar. induction Hpar; [ constructor |]. apply Forall_app. split; [| assumption ].
+    apply (proj1 grammar_no_dollar n u). assumption. }
+  assert (Hnd : no_dollar (id ++ ta ++ ptxt)).
+  { apply Forall_app. split; [ apply no_dollar_ident; exact Hid |]. apply Forall_app. split; [| exact Hpnd ].
+    apply (proj1 (proj2 grammar_no_dollar) n ta Hta). }
+  assert (Hpc : (m <= 6 * List.length ptxt + 1)%nat).
+  { clear - Hpar. induction Hpar; [ cbn; lia |]. rewrite app_length. pose proof (proj1 grammar_cost n u H). lia. }
+  assert (Hfuel : (n + m + 10 <= fuel_of s)%nat).
+  { unfold fuel_of. rewrite Hs. cbn [str]. repeat rewrite app_length. cbn [List.length].
+    pose proof (proj1 (proj2 grammar_cost) n ta Hta). lia. }
+  assert (Hpre : prefix_of prefix_str s = false) by (rewrite Hs; reflexivity).
+  apply demangle_of_encoding.
+  - exact Hpre.
+  - unfold mangled_form, stripped. rewrite Hpre. rewrite Hs. reflexivity.
+  - apply (std_unscoped_encoding_at s id n ta m ptxt (fuel_of s) Hs Hid Hta Hpar Hnd); [ unfold flen; exact HL | exact Hfuel ].
+Qed.
+
+(* non-vacuity:  void std::vector<app::Rec, std::allocator<app::Rec> >::push_back(app::Rec const&)   and   std::sort *)
+Example roundtrip_examples7 :
+  (exists n m enc ptxt,
+     Comps n [str "std"; str "vector"; str "push_back"] enc /\ PTys m ptxt /\
+     gmangle [] enc LPlain ptxt = str "_ZNSt6vectorIN3app3RecESaIS1_EE9push_backERKS1_" /\
+     gname [str "std"; str "vector"; str "push_back"] LPlain = str "std::vector::push_back") /\
+  (exists n m ta ptxt, TA n ta /\ PTys m ptxt /\
+     std_unscoped_mangle (str "sort") ta ptxt = str "_ZSt4sortIPN3app3RecEEvS2_S2_").
+Proof.
+  split.
+  - do 4 eexists. split; [| split; [| split ] ].
+    + eapply (CP_abbr (ch "t") (str "std") _ [] _ _ _ eq_refl TA_none).
+      eapply (CP_cons (str "vector") _ _ _ _ _ eq_refl).
+      { eapply TA_some. eapply TAL_ty.
+        { eapply TL_nested. eapply (NI_src (str "app") _ [] _ _ eq_refl TA_none).
+          eapply (NI_src (str "Rec") _ [] _ _ eq_refl TA_none). apply NI_nil. }
+        eapply TAL_ty.
+        { eapply (TL_abbr (ch "a") (str "std::allocator") _ _ eq_refl); [ discriminate |].
+          eapply TA_some. eapply TAL_ty; [ eapply (TL_subst (str "1") _ [] eq_refl TA_none) | apply TAL_nil ]. }
+        apply TAL_nil. }
+      eapply (CP_cons (str "push_back") _ [] _ _ _ eq_refl TA_none). apply CP_nil.
+    + eapply PT_cons.
+      { eapply (TL_qual (ch "R")); [ reflexivity |]. eapply (TL_qual (ch "K")); [ reflexivity |].
+        eapply (TL_subst (str "1") _ [] eq_refl TA_none). }
+      apply PT_nil.
+    + vm_compute. reflexivity.
+    + vm_compute. reflexivity.
+  - do 4 eexists. split; [| split ].
+    + eapply TA_some. eapply TAL_ty.
+      { eapply (TL_qual (ch "P")); [ reflexivity |]. eapply TL_nested.
+        eapply (NI_src (str "app") _ [] _ _ eq_refl TA_none). eapply (NI_src (str "Rec") _ [] _ _ eq_refl TA_none). apply NI_nil. }
+      apply TAL_nil.
+    + eapply PT_cons; [ apply (TL_builtin (ch "v")); reflexivity |].
+      eapply PT_cons; [ eapply (TL_subst (str "2") _ [] eq_refl TA_none) |].
+      eapply PT_cons; [ eapply (TL_subst (str "2") _ [] eq_refl TA_none) |]. apply PT_nil.
+    + vm_compute. reflexivity.
 Qed.
 
 (* non-vacuity:  void app::Vec<app::Rec, app::Alloc<app::Rec> >::push(app::Rec const&, pointer to app::Vec<int, 3>) *)
